@@ -917,6 +917,10 @@ RULES = {
         ("BigUint :: from_f64 ( n ) . map ( BigInt :: from )", "match BigUint :: from_f64 ( n ) { Some ( v__ ) => Some ( BigInt :: from ( v__ ) ) , None => None , }"),
         ("Some ( - BigInt :: from ( x ) )", "Some ( Neg :: neg ( BigInt :: from ( x ) ) )"),
     ]),
+    "R55": MultiRule("R55", "opt.as_ref().and_then(uN::to_iN) -> match on the option calling a helper with num_traits' semantics of the primitive conversion (std: Option::as_ref / and_then; num_traits: Some iff the value fits)", [
+        ("self . to_u64 ( ) . as_ref ( ) . and_then ( u64 :: to_i64 )", "match self . to_u64 ( ) { Some ( v__ ) => __u64_to_i64 ( v__ ) , None => None , }"),
+        ("self . to_u128 ( ) . as_ref ( ) . and_then ( u128 :: to_i128 )", "match self . to_u128 ( ) { Some ( v__ ) => __u128_to_i128 ( v__ ) , None => None , }"),
+    ]),
     "R14n": Rule("R14n", "debug_assert_ne!(..); -> (dropped)", "debug_assert_ne ! ( $$c ) ;", ""),
     "R10n": Rule("R10n", "for _ in A..E { BODY } -> { let mut i__ = A; let e__ = E; while i__ < e__ { i__ += 1; BODY } }  (std: Range yields A, .., E-1; bounds evaluated once)",
                  "for _ in $$a .. $$e { $$body }", "{ let mut i__ = $$a ; let e__ = $$e ; while i__ < e__ { i__ += 1 ; $$body } }",
